@@ -84,7 +84,7 @@ func genC01Mailbox(t *simrt.Tape) string {
 	case 1:
 		return []string{"INBOX/sub", "inbox.x", "INBOXX", " INBOX"}[t.Choose(4)]
 	}
-	pieces := []string{"a", "Z", " ", "/", ".", "&", "&-", "&AOk-", "é", "日本", "😀", "\x01", "\r", "\n", "\x00", "\"", "\\", "~", "%", "*", "(", "{5}", " ", "�", "\U0010ffff", "+", "-"}
+	pieces := []string{"a", "Z", " ", "/", ".", "&", "&-", "&AOk-", "é", "日本", "😀", "\x01", "\r", "\n", "\x00", "\x7f", "\t", "\x1f", "\u0080", "\"", "\\", "~", "%", "*", "(", "{5}", " ", "�", "\U0010ffff", "+", "-"}
 	var sb strings.Builder
 	for i, n := 0, 1+t.Choose(7); i < n; i++ {
 		sb.WriteString(pieces[t.Choose(len(pieces))])
